@@ -152,9 +152,17 @@ fn run(ctx: &RunCtx) -> Report {
     }) {
         0 => 1,          // cache roll
         1..=3 => 2,      // hours of refreshes and repeated targets
-        4..=9 => 3,      // store flood
+        4..=13 => 3,     // store flood / store reference model
         _ => 0,          // workload then quiescence
     };
+    if scenario == 3 && rng.chance(2, 3) {
+        // stores under request histories with reads: the reference model of C03/C04 checks caps and
+        // least-recently-used eviction after every consumed datagram
+        let flavor = if rng.chance(3, 4) { crate::props::server_model::Flavor::C04 } else { crate::props::server_model::Flavor::C03 };
+        let mut r = crate::props::server_model::run(ctx, flavor);
+        r.probe("store_model_runs", 1);
+        return r;
+    }
     let faulty = scenario == 0 && rng.chance(2, 3);
     let net = NetCfg {
         latency_min_us: 500,
